@@ -3,6 +3,8 @@
 package c08
 
 import (
+	"crypto"
+	"crypto/x509"
 	"bytes"
 	"compress/flate"
 	"crypto/rand"
@@ -76,6 +78,8 @@ type Case struct {
 	Lead    int     `json:"lead,omitempty"` // number of SPSSODescriptors without POST ACS and without keys placed before the one that holds the ACS and the keys
 	Session Session `json:"session,omitempty"`
 	Method  string  `json:"method,omitempty"` // POST | GET | initiated
+	// IDPNoise: IdentityProvider options and optional session fields (see curIDPNoise); idp, rekey and fresh kinds
+	IDPNoise uint64 `json:"idp_noise,omitempty"`
 	// Validity: validUntil / cacheDuration statements of the registered metadata (see validities); idp and rekey kinds
 	Validity string `json:"validity,omitempty"`
 
@@ -262,15 +266,77 @@ func (discard) Panic(...interface{})          {}
 func (discard) Panicf(string, ...interface{}) {}
 func (discard) Panicln(...interface{})        {}
 
+// curIDPNoise: options of the IdentityProvider that have no bearing on whether the assertion is encrypted
+// (set by check() for the case being judged): bit 0 Signer instead of Key, 1 SignatureMethod rsa-sha256,
+// 2 Intermediates, 3 ValidDuration, 4 Login/Logout URLs, 5 ECDSA IdP key, 6 the optional session fields
+// (SubjectID, NameIDFormat, surname, given name, scoped affiliation) filled with values derived from the markers.
+var curIDPNoise uint64
+
+func mkSession(s Session) *saml.Session {
+	sess := &saml.Session{ID: "sid", CreateTime: fix.Epoch, ExpireTime: fix.Epoch.Add(time.Hour), Index: s.Index, NameID: s.NameID,
+		UserEmail: s.Email, UserCommonName: s.Name, UserName: s.Name, Groups: s.Groups,
+		CustomAttributes: []saml.Attribute{{Name: "custom", Values: []saml.AttributeValue{{Type: "xs:string", Value: s.Custom}}}}}
+	if curIDPNoise&64 != 0 {
+		for _, x := range extraMarkers(s) {
+			switch {
+			case sess.SubjectID == "":
+				sess.SubjectID = x
+			case sess.UserSurname == "":
+				sess.UserSurname = x
+			case sess.UserGivenName == "":
+				sess.UserGivenName = x
+			case sess.UserScopedAffiliation == "":
+				sess.UserScopedAffiliation = x
+			}
+		}
+		sess.NameIDFormat = "urn:oasis:names:tc:SAML:2.0:nameid-format:persistent"
+	}
+	return sess
+}
+
+// extraMarkers: values for the optional session fields, derived from the name identifier's marker.
+func extraMarkers(s Session) []string {
+	m := markersOf(Session{NameID: s.NameID})
+	if len(m) == 0 {
+		return nil
+	}
+	return []string{"sub0" + m[0], "sur0" + m[0], "giv0" + m[0], "aff0" + m[0]}
+}
+
 func newIDP(md *saml.EntityDescriptor, s Session) *saml.IdentityProvider {
 	mu, _ := url.Parse(spkit.IDPEntity)
 	su, _ := url.Parse(spkit.IDPSSO)
 	kp := fix.Get("idp")
-	sess := &saml.Session{ID: "sid", CreateTime: fix.Epoch, ExpireTime: fix.Epoch.Add(time.Hour), Index: s.Index, NameID: s.NameID,
-		UserEmail: s.Email, UserCommonName: s.Name, UserName: s.Name, Groups: s.Groups,
-		CustomAttributes: []saml.Attribute{{Name: "custom", Values: []saml.AttributeValue{{Type: "xs:string", Value: s.Custom}}}}}
-	return &saml.IdentityProvider{Key: kp.Key, Certificate: kp.Cert, Logger: discard{}, MetadataURL: *mu, SSOURL: *su,
-		ServiceProviderProvider: spProvider{md}, SessionProvider: sessProvider{sess}}
+	if curIDPNoise&32 != 0 {
+		kp = fix.Get("idpec")
+	}
+	idp := &saml.IdentityProvider{Key: kp.Key, Certificate: kp.Cert, Logger: discard{}, MetadataURL: *mu, SSOURL: *su,
+		ServiceProviderProvider: spProvider{md}, SessionProvider: sessProvider{mkSession(s)}}
+	if curIDPNoise&(1|32) != 0 { // (the library takes an ECDSA IdP key only as crypto.Signer)
+		if sg, ok := kp.Key.(crypto.Signer); ok {
+			idp.Key, idp.Signer = nil, sg
+		}
+	}
+	if curIDPNoise&2 != 0 && curIDPNoise&32 == 0 {
+		idp.SignatureMethod = "http://www.w3.org/2001/04/xmldsig-more#rsa-sha256"
+	}
+	if curIDPNoise&32 != 0 {
+		// an ECDSA key needs an ECDSA method (the default method is an RSA one)
+		idp.SignatureMethod = "http://www.w3.org/2001/04/xmldsig-more#ecdsa-sha256"
+	}
+	if curIDPNoise&4 != 0 {
+		idp.Intermediates = []*x509.Certificate{fix.Get("idp2").Cert}
+	}
+	if curIDPNoise&8 != 0 {
+		d := time.Hour
+		idp.ValidDuration = &d
+	}
+	if curIDPNoise&16 != 0 {
+		lu, _ := url.Parse("https://idp.example.com/login")
+		lo, _ := url.Parse("https://idp.example.com/logout")
+		idp.LoginURL, idp.LogoutURL = *lu, *lo
+	}
+	return idp
 }
 
 func authnRequest() []byte {
@@ -344,7 +410,11 @@ func emit(idp *saml.IdentityProvider, method string) (r reply) {
 // markersOf returns the alphanumeric marker prefix of every session string (immune to escaping).
 func markersOf(s Session) []string {
 	var out []string
-	for _, x := range append([]string{s.NameID, s.Email, s.Name, s.Index, s.Custom}, s.Groups...) {
+	all := append([]string{s.NameID, s.Email, s.Name, s.Index, s.Custom}, s.Groups...)
+	if curIDPNoise&64 != 0 && s.Email+s.Name+s.Index+s.Custom != "" { // (not for the inner call of extraMarkers)
+		all = append(all, extraMarkers(s)...)
+	}
+	for _, x := range all {
 		i := 0
 		for i < len(x) && (x[i] >= 'a' && x[i] <= 'z' || x[i] >= '0' && x[i] <= '9') {
 			i++
@@ -508,6 +578,9 @@ func checkFresh(c Case) pbt.Result {
 	}
 	type kv struct{ key, iv []byte }
 	var seen []kv
+	// one long-lived IdentityProvider serves the whole sequence (a key or IV kept from one response to
+	// the next would be reuse); odd cases build a fresh one per response as well
+	shared := newIDP(metadata(kds), c.Session)
 	for i := 0; i < c.N; i++ {
 		s := c.Session
 		s.NameID = fmt.Sprintf("%s-%d", s.NameID, i)
@@ -515,7 +588,13 @@ func checkFresh(c Case) pbt.Result {
 		if rec != nil {
 			start = len(rec.reads)
 		}
-		r := emit(newIDP(metadata(kds), s), "POST")
+		idp := shared
+		if c.N%2 == 1 && i%3 == 2 {
+			idp = newIDP(metadata(kds), s)
+		} else {
+			idp.SessionProvider = sessProvider{mkSession(s)}
+		}
+		r := emit(idp, "POST")
 		fail, key, iv := inspect(r, s, true, "rsa")
 		if fail != "" {
 			res.Err = fmt.Sprintf("response %d of the sequence: %s", i, fail)
@@ -842,6 +921,7 @@ func (s *stream) Read(p []byte) (int, error) {
 }
 
 func check(c Case) pbt.Result {
+	curIDPNoise = c.IDPNoise & 127
 	curValidity = ""
 	for _, v := range validities {
 		if v == c.Validity {
@@ -849,6 +929,9 @@ func check(c Case) pbt.Result {
 		}
 	}
 	res := check1(c)
+	if curIDPNoise != 0 && !res.Skip && (c.Kind == "idp" || c.Kind == "rekey" || c.Kind == "fresh") {
+		res.Classes = append(res.Classes, "idp-options-and-optional-session-fields-set")
+	}
 	if curValidity != "" && !res.Skip {
 		res.Classes = append(res.Classes, "metadata-validity:"+curValidity)
 		if c.Kind == "idp" {
@@ -912,6 +995,14 @@ func genMethods(t *rapid.T) []string {
 }
 
 func gen(t *rapid.T) Case {
+	c := gen0(t)
+	if (c.Kind == "idp" || c.Kind == "rekey" || c.Kind == "fresh") && rapid.IntRange(0, 2).Draw(t, "idpnoise?") == 0 {
+		c.IDPNoise = rapid.Uint64Range(1, 127).Draw(t, "idpnoise")
+	}
+	return c
+}
+
+func gen0(t *rapid.T) Case {
 	switch rapid.IntRange(0, 11).Draw(t, "kind") {
 	case 11:
 		return Case{Kind: "pad", Block: rapid.SampledFrom([]string{"aes128-cbc", "aes192-cbc", "aes256-cbc", "tripledes-cbc"}).Draw(t, "block"), Blocks: rapid.IntRange(1, 4).Draw(t, "blocks"),
@@ -991,6 +1082,20 @@ func enumValidity(_ string, emit func(Case)) {
 				emit(Case{Kind: "idp", Session: s, Method: m, KDs: kds, Validity: v})
 			}
 		}
+	}
+}
+
+// enumIDPOptions: every single IdentityProvider option / the optional session fields, and all together, x key
+// layouts x flows.
+func enumIDPOptions(_ string, emit func(Case)) {
+	s := Session{NameID: "mnameid0123456789", Email: "memail0123456789@example.com", Name: "mname0123456789", Index: "idx0123456789", Custom: "mcustom0123456789", Groups: []string{"mgroup0123456789"}}
+	for _, n := range []uint64{1, 2, 4, 8, 16, 32, 64, 127, 95} {
+		for _, kds := range [][]KD{{{Use: "encryption", Cert: "rsa"}}, {{Use: "", Cert: "rsa"}}, {{Use: "signing", Cert: "rsa"}, {Use: "", Cert: "rsa2"}}, {{Use: "encryption", Cert: "garbage"}}, {}} {
+			for _, m := range []string{"POST", "GET", "initiated"} {
+				emit(Case{Kind: "idp", Session: s, Method: m, KDs: kds, IDPNoise: n})
+			}
+		}
+		emit(Case{Kind: "fresh", Session: s, N: 8, IDPNoise: n})
 	}
 }
 
@@ -1087,15 +1192,15 @@ func enumSP(_ string, emit func(Case)) {
 
 var prop = &pbt.Prop[Case]{
 	ID: "C08",
-	Rule: "cases: (idp) sessions whose strings carry unique alphanumeric markers x registered SP metadata whose KeyDescriptor list is any sequence over use in {encryption, omitted, signing} x certificate in {valid RSA, second valid RSA, valid EC, empty, white space, not base64, base64 of garbage, no X509Certificate element} x optional EncryptionMethod lists beside the key (block ciphers, key transports, unknown and blank algorithms) x validUntil / cacheDuration statements of the registered metadata (lapsed or not, on the role descriptor or the entity) through ServeSSO (POST, GET) and ServeIDPInitiated " +
-		"(all sequences of length <= 2 enumerated, <= 3 in thorough); (fresh) sequences of 8-12 responses with the default random source (pairwise distinct content keys and IVs) and with a recording xmlenc.RandReader fed generated bytes (key and IV are values drawn for that response, >= 32 bytes consumed); " +
+	Rule: "cases: (idp) sessions whose strings carry unique alphanumeric markers x registered SP metadata whose KeyDescriptor list is any sequence over use in {encryption, omitted, signing} x certificate in {valid RSA, second valid RSA, valid EC, empty, white space, not base64, base64 of garbage, no X509Certificate element} x optional EncryptionMethod lists beside the key (block ciphers, key transports, unknown and blank algorithms) x validUntil / cacheDuration statements of the registered metadata (lapsed or not, on the role descriptor or the entity) x IdentityProvider options (Signer instead of Key, signature method, intermediates, ValidDuration, login/logout URLs, ECDSA key) and the optional session fields (subject id, surname, given name, scoped affiliation, name ID format) through ServeSSO (POST, GET) and ServeIDPInitiated " +
+		"(all sequences of length <= 2 enumerated, <= 3 in thorough); (fresh) sequences of 8-12 responses served by one long-lived IdentityProvider with the default random source (pairwise distinct content keys and IVs) and with a recording xmlenc.RandReader fed generated bytes (key and IV are values drawn for that response, >= 32 bytes consumed); " +
 		"(spmeta) one assertion with a chosen defect presented in clear and encrypted to the SP: the verdicts must agree and match the defect; (tamper) ciphertext encrypted to another key, assertions encrypted by a party without the IdP key, flipped / truncated / reordered cipher values. " +
 		"oracle: advertises = some descriptor usable for encryption has non-blank certificate text => reply is an error status or a form with exactly one EncryptedAssertion, no clear Assertion and no session marker anywhere in the HTML or decoded XML; with a valid RSA certificate first the reply must succeed, an independent stdlib decryptor with the SP key recovers a signed assertion carrying all markers and no other private key does. " +
 		"non-trivial: (idp) >= 2 descriptors, a defective certificate or an EncryptionMethod list; fresh and tamper always; (spmeta) the defect is not 'none'. distinct: sha256 of the JSON case.",
 	Gen:   gen,
 	Check: check,
 	Reset: fix.Reset,
-	Enums: []pbt.Enum[Case]{{Name: "key-descriptor-layouts", Each: enumLayouts}, {Name: "sp-defects-and-tampering", Each: enumSP}, {Name: "re-registration-sequences", Each: enumRekey}, {Name: "cbc-padding-through-the-sp", Each: enumPad}, {Name: "encryption-method-lists", Each: enumMethods}, {Name: "metadata-validity-statements", Each: enumValidity}},
+	Enums: []pbt.Enum[Case]{{Name: "key-descriptor-layouts", Each: enumLayouts}, {Name: "sp-defects-and-tampering", Each: enumSP}, {Name: "re-registration-sequences", Each: enumRekey}, {Name: "cbc-padding-through-the-sp", Each: enumPad}, {Name: "encryption-method-lists", Each: enumMethods}, {Name: "metadata-validity-statements", Each: enumValidity}, {Name: "idp-options-and-optional-session-fields", Each: enumIDPOptions}},
 	Assumptions: []string{
 		"CR is kept out of session strings (separate finding of C07)",
 		"RSA-OAEP randomness drawn from the recording source may include extra bytes (Go's MaybeReadByte); membership of key and IV among the recorded reads is what is checked",
